@@ -197,6 +197,15 @@ def jobs(tier):
       unwind=UB, defs=["-DCANARY_bintTimes"], kind="canary")
 
     # shifts (bintShift: 300 s on a loaded machine, thorough tier; the digit-level iintShift jobs are in the quick tier)
+    # quick tier: an immediate operand whose shifted magnitude stays below 2^65 -- the fast path and the
+    # immediate/stored boundary of the result (62/63/64 bits)
+    for k, kn in (K1 if tier == "thorough" else [x for x in K1 if x[0] != "i"]):   # immediate operand: > 900 s (tagged-pointer modelling); thorough
+        J("bint.bintShift.%s.modulo_c_iintShift" % kn, "h_bintShift_" + k, ["bintShift", "bintLength", "xintStore", "bintAlloc", "xintImmedIfCan"],
+          bk("b")[:-1] + ["n"], cls="B", unwind=UB, timeout=900 if tier != "thorough" else 5000, mem_gb=10,
+          bound=B3 + ", result < 2^127; iintShift replaced by a model of its contract c_iintShift (enforced in iint.iintShift.*)",
+          defs=["-DC11_MODEL_IINTSHIFT"], checks=NOPTR if k == "i" else STD,
+          splice={"bigint.c": {"_rename_def": {"iintShift": "iintShift__real"}}},
+          assumed=["c_iintShift as a model (its contract is enforced on the real iintShift in the iint.iintShift.* jobs)"])
     if tier == "thorough":
         for k, kn in K1:
             # immediate operand: xintStore gives a one-digit number, whose left shift reads Placev(b)[-1] (see iintShift);
